@@ -290,6 +290,12 @@ pub fn run(rep: &mut Report) {
     for i in 0..n {
         let mut rs = gen_result_set(&mut rng, 6);
         more_functions(&mut rng, &mut rs);
+        if !rs.is_empty() && rng.chance(1, 15) {
+            let n = *rng.pick(&[255usize, 256, 257, 300]);
+            let v: Vec<bool> = (0..n).map(|j| j + 1 == n || rng.chance(1, 3)).collect();
+            rs[0].2.branches.insert(rng.range(1, 40) as u32, v);
+            rep.count(&format!("bytes_all.wide_branch_line.{}_slots", n));
+        }
         let many = rs.iter().any(|r| r.2.functions.len() >= 2);
         rep.case(&format!("bytes_all {}", shown(&rs)), many);
         if many {
